@@ -563,6 +563,22 @@ func (t *dnTr) errExpr(e ast.Expr, errVar *types.Var, b *lpBinds) (term string, 
 		}
 		t.refuse(e, "error value %s", id.Name)
 	}
+	if sel, ok := e.(*ast.SelectorExpr); ok { // pkg.ErrX: a sentinel of another package (builder M)
+		if x, ok := sel.X.(*ast.Ident); ok {
+			if _, isPkg := t.info.Uses[x].(*types.PkgName); isPkg {
+				if v, _ := t.info.Uses[sel.Sel].(*types.Var); v != nil && dnIsError(v.Type()) {
+					name := v.Name()
+					if strings.HasPrefix(name, "Err") && len(name) > 3 {
+						c := strings.ToLower(name[3:4]) + name[4:]
+						if dnErrCtors[c] {
+							return "Err." + c, false, false
+						}
+					}
+					return "Err.other", false, false
+				}
+			}
+		}
+	}
 	if c, ok := e.(*ast.CallExpr); ok {
 		callee, _ := t.calleeOf(c)
 		if dnQual(callee) == "fmt.Errorf" && len(c.Args) >= 1 {
@@ -1738,6 +1754,9 @@ var dnCandidates = []struct{ recv, name string }{
 	{"", "encodeName"}, {"", "EncodeDNSQuery"}, {"", "encode"}, {"", "NewDNSEntry"},
 }
 
+var dnNamingCandidates = []struct{ recv, name string }{{"", "encodeNBNSName"}, {"", "decodeNBNSName"}, {"", "parseNodeNameArray"}, {"", "processNBNSNodeStatusResponse"},
+	{"DNSHandler", "ProcessNBNS"}, {"DNSHandler", "ProcessMDNS"}, {"", "processSSDPNotify"}, {"", "processSSDPSearchRequest"}, {"", "processUserAgent"}, {"", "processSSDPResponse"}, {"DNSHandler", "ProcessSSDP"}}
+
 var dnAssumptionText = map[string]string{
 	"intNoOverflow":    "Go int is modelled as an unbounded integer; every int in the translated functions is a length, an offset into the message plus a small constant, or a 16-bit field",
 	"capEqLen":         "a slice expression x[lo:hi] on a byte-slice value is checked against len(x) (the length-only view of the models)",
@@ -1775,6 +1794,18 @@ func loopDnsFacts(pkgs []*packages.Package, b *strings.Builder) {
 				continue
 			}
 			f := root.TypesInfo.Defs[fd.Name].(*types.Func)
+			cands = append(cands, cand{f, lpFuncKey(f)})
+		}
+	}
+	// candidates of handlers/dns_naming (builder M): byte-level decoders of the naming handlers
+	if hp := lp.pkgs["github.com/irai/packet/handlers/dns_naming"]; hp != nil {
+		for _, c := range dnNamingCandidates {
+			fd := findFunc(hp, c.recv, c.name)
+			if fd == nil {
+				missing = append(missing, "dns_naming."+c.recv+"."+c.name)
+				continue
+			}
+			f := hp.TypesInfo.Defs[fd.Name].(*types.Func)
 			cands = append(cands, cand{f, lpFuncKey(f)})
 		}
 	}
